@@ -15,7 +15,7 @@ RULE = (
     "multi-column troughs, single-well labware; min_volume mostly 0 so wells can be emptied) + device + a program "
     "of 1..12 operations: transfer (also within one labware and from a well into itself, splits, serial chains over "
     "several calls), distribute, dispense with a KNOWN composition (fractions k/n, new and existing component names), "
-    "aspirate, zero-volume steps, wells emptied and refilled. A transfer call in which a well is both source and "
+    "aspirate, zero-volume steps, wells emptied and refilled, and dispenses that are refused for overflow (the well must keep volume and composition). A transfer call in which a well is both source and "
     "destination of different triples is reduced to its first triple (the mixing result would depend on the "
     "implementation's sub-step order; such calls are C01's subject). Non-trivial = >= 2 mixing events and a well "
     "with >= 2 components at the end; distinct by canonical JSON."
@@ -28,7 +28,7 @@ ASSUMPTIONS = [
 BUDGET = {"quick": (4, 300), "thorough": (16, 4000)}
 KNOWN_KINDS = {}
 STRATA = ["transfer", "distribute", "dispense", "mixed"]
-REQUIRED_CLASSES = ["op:transfer", "op:distribute", "op:dispense", "op:aspirate", "chain>=2", "same-labware", "emptied-and-refilled", "zero-volume-into-empty", "shared-names", "self-transfer"]
+REQUIRED_CLASSES = ["op:transfer", "op:distribute", "op:dispense", "op:aspirate", "chain>=2", "same-labware", "emptied-and-refilled", "zero-volume-into-empty", "shared-names", "self-transfer", "refused-dispense"]
 
 
 ENUM_SPACE = "naming rule at construction: plates 1..16 rows x 1..24 columns and Troughs 1..8 virtual rows x 1..24 columns, all wells filled / checkerboard filled, default names and partial explicit names"
@@ -86,8 +86,10 @@ def _case(draw, focus):
     )
     d = op_distribute(vs, max_n=4)
     dc = op_direct(vs, kinds=("dispense",), comps=True, max_n=4).map(lambda o: dict(o, comps=o["comps"] or 1))
+    # a dispense of known composition that overflows its (single) well: must be refused and leave the well as it was
+    refused = st.fixed_dictionaries({"op": st.just("dispense"), "lw": st.integers(0, 2), "wells": st.fixed_dictionaries({"t": st.just("scalar"), "w": st.tuples(st.integers(0, 15), st.integers(0, 23)).map(list)}), "vols": st.just({"t": "scalar", "v": {"over": 10.0}}), "label": st.none(), "comps": st.integers(1, 5), "refused": st.just(True)})
     a = op_direct(vs, kinds=("aspirate",), max_n=4)
-    anyop = st.one_of(t, t, d, dc, a)
+    anyop = st.one_of(t, t, d, dc, a, refused)
     fop = {"transfer": t, "distribute": d, "dispense": dc, "mixed": anyop}[focus]
     return {"labs": labs, "device": draw(st.sampled_from(["evo", "fluent"])), "q": q, "M": draw(st.sampled_from([950, 50, 7, 33.3])), "ops": draw(st.lists(st.one_of(fop, anyop), min_size=1, max_size=12))}
 
@@ -119,11 +121,11 @@ def _naming(obs, spec, lw):
             obs.bad("C05/explicit-name", f"{spec['name']}{idx}: user-given name {explicit[idx]!r} but component {nm!r}")
     defaults = {idx: nm for idx, nm in names_of.items() if idx not in explicit}
     nreal = vols.size
-    if nreal == 1:
+    if nreal == 1 and not spec.get("legacy"):
         for idx, nm in defaults.items():
             if nm != spec["name"]:
                 obs.bad("C05/single-well-default", f"single-well labware {spec['name']!r}: default component name {nm!r}")
-    elif (spec["kind"] == "plate" and spec["rows"] > 1) or (spec["kind"] == "trough" and spec["cols"] > 1):
+    elif (spec["kind"] == "plate" and spec["rows"] > 1) or (spec["kind"] == "trough" and spec["cols"] > 1 and not spec.get("legacy")):
         if len(set(defaults.values())) != len(defaults):
             obs.bad("C05/default-names-collide", f"{spec['name']}: default component names are not pairwise distinct: {sorted(defaults.values())[:6]}")
     if explicit and len(set(explicit.values())) < len(explicit):
@@ -170,7 +172,7 @@ def check_case(case) -> Obs:
                 continue
             op["src"] = troughs[op["src"] % len(troughs)]
             op["cap"] = case["M"]
-        if kind in ("aspirate", "dispense"):
+        if kind in ("aspirate", "dispense") and not op.get("refused"):
             op["cap"] = case["M"]
         if kind == "transfer":
             op["cap"] = 10 * case["M"]
@@ -195,6 +197,28 @@ def check_case(case) -> Obs:
             if expect_transfer(world, conc) != "accept":
                 obs.cls("skipped")
                 continue
+        elif op.get("refused"):
+            if expect_sequential(world, flat_pairs(world, conc))[0] != "refuse-over":
+                continue
+            snap = [{name: arr.copy() for name, arr in lw.composition.items()} for lw in world.labs]
+            vols0 = world.vols()
+            step = execute(world, conc)
+            obs.units += 1
+            obs.cls("refused-dispense")
+            if step.exc is None:
+                obs.bad("C05/overflow-accepted", f"op {k}: dispense of {conc['vols']['v']} into {conc['wells']['ids']} should overflow but returned")
+                break
+            for i, lw in enumerate(world.labs):
+                if not np.array_equal(lw.volumes, vols0[i]):
+                    obs.bad("C05/refused-changed-volume", f"op {k}: refused dispense changed the volumes of {specs[i]['name']}")
+                for name, arr in lw.composition.items():
+                    old_arr = snap[i].get(name)
+                    if (old_arr is None and np.any(arr != 0)) or (old_arr is not None and not np.array_equal(old_arr, arr)):
+                        obs.bad("C05/refused-changed-composition", f"op {k}: a dispense refused with {type(step.exc).__name__} changed composition[{name!r}] of {specs[i]['name']}: {None if old_arr is None else old_arr.tolist()} -> {arr.tolist()}")
+                        break
+            if obs.violations:
+                break
+            continue
         else:
             if expect_sequential(world, flat_pairs(world, conc))[0] != "accept":
                 obs.cls("skipped")
